@@ -22,13 +22,12 @@ Theorem snap_provenance_closed g P levels cfg r L ps p :
     In (a, b) (dedges r') /\ In p (snapClosestPoints g (hotLevels g hs) a b L).
 Proof. exact (snap_provenance kmp_subseq_joined g P levels cfg r L ps p). Qed.
 
-(** C05 "visits no vertex twice", with only the routing premises and the short-output kmp fact left *)
+(** C05 "visits no vertex twice", with only the routing premises left *)
 Theorem level_repeat_free_closed g hots P cfg L ps :
-  (forall r r', no_adj_dup r -> kmpDeduplicate r = Ok r' -> (length r' < 3)%nat -> NoDup r') ->
   (forall idx r, nth_error P idx = Some r ->
                  routing_ok g hots L (ensureCorrectWindingOrder r (negb (Nat.eqb idx 0)))) ->
   snapLevel g hots P cfg L = Ok (Some ps) -> Forall (Forall (@NoDup pt)) ps.
-Proof. intros Hk. exact (level_repeat_free kmp_subseq_joined Hk g hots P cfg L ps). Qed.
+Proof. exact (level_repeat_free kmp_subseq_joined g hots P cfg L ps). Qed.
 
 (** ** C05 at the level of snapPolygon *)
 Definition ring_well_formed (x : ring) : Prop :=
@@ -41,16 +40,15 @@ Proof.
 Qed.
 
 Theorem snap_rings_well_formed g P levels cfg r hs :
-  (forall r r', no_adj_dup r -> kmpDeduplicate r = Ok r' -> (length r' < 3)%nat -> NoDup r') ->
   insertPolygon g P = Ok hs ->
   (forall L idx r0, In L levels -> nth_error P idx = Some r0 ->
      routing_ok g (hotLevels g hs) L (ensureCorrectWindingOrder r0 (negb (Nat.eqb idx 0)))) ->
   snapPolygon g P levels cfg = Ok r ->
   forall L ps poly x, In (L, ps) r -> In poly ps -> In x poly -> ring_well_formed x.
 Proof.
-  intros Hk Hi Hrt H L ps poly x Hin Hpoly Hx.
+  intros Hi Hrt H L ps poly x Hin Hpoly Hx.
   destruct (level_value _ _ _ _ _ _ _ H Hin) as [hs' [Hi' [HL Hl]]]. rewrite Hi in Hi'. inversion Hi'; subst hs'.
-  pose proof (level_repeat_free_closed g (hotLevels g hs) P cfg L ps Hk (fun idx r0 => Hrt L idx r0 HL) Hl) as F.
+  pose proof (level_repeat_free_closed g (hotLevels g hs) P cfg L ps (fun idx r0 => Hrt L idx r0 HL) Hl) as F.
   rewrite Forall_forall in F. specialize (F poly Hpoly). rewrite Forall_forall in F. apply NoDup_well_formed, F, Hx.
 Qed.
 
